@@ -71,6 +71,31 @@ theorem no_leak (h : Hyp cfg rank) (hs : StartOK cfg (den cfg P rank) st0)
   · intro hr
     exact hB.inv.done_result_cached hl hr (hseen d (hs.resultsSeen d hr))
 
+/-! ## full statements (no `StartOK` hypothesis) -/
+section Full
+variable (h : Hyp cfg rank) (hG : GraphOK cfg.g cfg.results) (hst : startState cfg P = .ok st0)
+include h hG hst
+
+theorem no_early_release_full (choices : List Nat) (s' : Sys α) (o : Outcome)
+    (hrun : mainLoop cfg P choices (sys0 st0) = .ok (s', o)) (k d : Key) (hd : d ∈ s'.st.depsOf k)
+    (hk : k ∉ s'.st.finished) :
+    d ∉ s'.st.released ∧
+    ((k ∈ s'.st.ready ∨ k ∈ s'.st.running) → s'.st.cache.get? d = some (den cfg P rank d)) :=
+  no_early_release h (C01.startOK_of_eq h hG hst) choices s' o hrun k d hd hk
+
+theorem release_once_full (choices : List Nat) (s' : Sys α) (o : Outcome)
+    (hrun : mainLoop cfg P choices (sys0 st0) = .ok (s', o)) (key : Key) (hk : key ∈ s'.st.running) (res : α) :
+    ∃ st', finishTask cfg key { s'.st with cache := s'.st.cache.set key res } = .ok st' ∧ st'.released.Nodup :=
+  release_once h (C01.startOK_of_eq h hG hst) choices s' o hrun key hk res
+
+theorem no_leak_full (choices : List Nat) (s' : Sys α)
+    (hrun : mainLoop cfg P choices (sys0 st0) = .ok (s', .done)) :
+    (∀ d, (∃ v, s'.st.cache.get? d = some v) ↔ d ∈ cfg.results) ∧
+    (∀ d, st0.seen d → d ∉ cfg.results → d ∈ s'.st.released) :=
+  no_leak h (C01.startOK_of_eq h hG hst) choices s' hrun
+
+end Full
+
 /-! non-vacuity: the diamond of C01 — at the end only the requested key 3 is cached, 0 1 2 are released -/
 example : ((getAsync (C01.exCfg 1) C01.exP [1, 0, 0]).final.cache.map (·.1),
            (getAsync (C01.exCfg 1) C01.exP [1, 0, 0]).final.released) = ([3], [0, 1, 2]) := by decide
